@@ -1,5 +1,5 @@
 P = dict(
-    bin="egv_c19", trace="Trace_C19", level="model_checking", wip=True,
+    bin="egv_c19", trace="Trace_C19", level="model_checking",
     mc=[dict(module="MC_C19", quick_cfg="MC_C19.cfg", thorough_cfg="MC_C19_thorough.cfg")],
     required_events=["tri", "pair", "poly"],
     level_text="TLC steps the transcribed fill scanline iterator of Triangle::points() (one scanline per action) for every "
